@@ -3,7 +3,8 @@ from vt.rigs.sctp_workload import gen_program, run_program, summarize_prog
 
 ID = "C01"
 LEVEL = "exploration"
-RULE = ("Each case = one generated program (1-6 reliable channels created by either side, DCEP or negotiated, "
+RULE = ("Each case = one generated program (1-6 reliable channels - in one case of four sharing the association with partially "
+        "reliable ones, which are not judged here - created by either side, DCEP or negotiated, "
         "ordered/unordered; str/bytes messages of 0..48000 bytes incl. fragment-boundary sizes, both directions, bursts) "
         "run on two real RTCSctpTransport stacks in virtual time under a seeded per-datagram fault schedule per direction "
         "(iid/burst loss, outages, SACK-only / retransmission-only loss, duplication x2/x3, delay jitter up to 5 s) until "
@@ -21,14 +22,16 @@ CATS = ("delivery",)
 
 def plan(tier):
     if tier == "thorough":
-        return dict(cases=24000, shards=16, timeout=1500, min_nontrivial=2000)
-    return dict(cases=480, shards=16, timeout=240, min_nontrivial=40)
+        return dict(cases=96000, shards=16, timeout=3000, min_nontrivial=8000)
+    return dict(cases=1920, shards=16, timeout=400, min_nontrivial=150)
 
 
 def run_case(index, rng, tier):
     relay = (index % 10 == 9)
     heavy = (index % 3 == 0)
-    prog = gen_program(rng, mode="reliable", heavy=heavy, long=(tier == "thorough" and index % 50 == 7))
+    # one case in four: partially reliable channels share the association (their abandoning must not disturb reliable ones)
+    mode = "mixed" if index % 4 == 1 else "reliable"
+    prog = gen_program(rng, mode=mode, heavy=heavy, long=(tier == "thorough" and index % 50 == 7))
     r = run_program(prog, rng, relay=relay)
     c = dict(r["counters"])
     w = r["wire"]
@@ -38,6 +41,7 @@ def run_case(index, rng, tier):
     c["link_duplicated"] = r["link"]["duplicated"]
     c["link_reordered"] = r["link"]["reordered"]
     c["relay_mode_cases"] = 1 if relay else 0
+    c["mixed_reliability_cases"] = 1 if mode == "mixed" else 0
     viol = []
     for v in r["violations"]:
         if v["cat"] in CATS:
